@@ -8,7 +8,9 @@ REL = 1e-12
 RULE = ("games: S2 and T3|V6, sigma alphabets extended by 0.01*beta so both options are visible, every weak order; per game "
         "24 comparisons Model(s').rate(g, arg) == Model(arg).rate(g): tau arg in {0, 0.0, 1e-300, tau0, 2beta} x model tau "
         "in {0, tau0, 2beta}; limit_sigma arg in {True, False} x model limit_sigma in {False, True}; explicit None == "
-        "omitted == own setting; two mixed tau+limit_sigma calls; 5 classes; non-trivial = the per-call value differs from "
+        "omitted == own setting; two mixed tau+limit_sigma calls; on T3 (thorough: everywhere) additionally the FULL option matrix: model "
+        "(tau in {0,tau0,2beta}) x (limit_sigma in {F,T}) x per-call tau in {omitted,0,tau0,2beta} x per-call limit_sigma in "
+        "{omitted,T,F} = 66 comparisons; 5 classes; non-trivial = the per-call value differs from "
         "the model's own AND the two model-level settings give different posteriors for this game")
 ASSUMPTIONS = ["'identical' read as 1e-12 relative (two code paths may round differently after a refactor)",
                "tau/limit_sigma arguments of wrong type are not in the statement"]
@@ -65,7 +67,30 @@ def comparisons(cfg):
     return out
 
 
-def eval_case(kind, cfg, game, ranks, only=None):
+def matrix(cfg):
+    """Full option matrix: model (tau, limit_sigma) x per-call (tau, limit_sigma); same tuple format as comparisons()."""
+    t0, big = cfg.tau if cfg.tau > 0 else 0.02 * cfg.beta, 2 * cfg.beta
+    names = {0.0: "0", t0: "tau0", big: "2beta"}
+    out = []
+    for mt in (0.0, t0, big):
+        for ml in (False, True):
+            for t in (None, 0, t0, big):
+                for l in (None, True, False):
+                    if t is None and l is None:
+                        continue
+                    kw = {}
+                    if t is not None:
+                        kw["tau"] = t
+                    if l is not None:
+                        kw["limit_sigma"] = l
+                    tgt = (mt if t is None else float(t), ml if l is None else l)
+                    label = f"Model(tau={names[mt]}, limit_sigma={ml}).rate({', '.join(f'{k}={names.get(v, v) if k == 'tau' else v}' for k, v in kw.items())})"
+                    key = ("tau=" + ("omitted" if t is None else names[float(t)])) + "+" + ("limit_sigma=" + ("omitted" if l is None else str(l)))
+                    out.append((label, "matrix:" + key, (mt, ml), kw, tgt))
+    return out
+
+
+def eval_case(kind, cfg, game, ranks, only=None, table=None):
     msgs = []
     base = {}
     nt = ev = 0
@@ -75,7 +100,7 @@ def eval_case(kind, cfg, game, ranks, only=None):
             base[key] = lib.rate(mk(kind, cfg, *key), game, ranks=list(ranks))
         return base[key]
 
-    for (label, key, mset, kw, tgt) in comparisons(cfg):
+    for (label, key, mset, kw, tgt) in (table if table is not None else comparisons(cfg) + matrix(cfg)):
         if only is not None and label != only:
             continue
         ev += 1
@@ -99,7 +124,7 @@ def eval_case(kind, cfg, game, ranks, only=None):
 def units(ctx):
     us = []
     for kind in spaces.KINDS:
-        for sp, parts in ((("S2x", 10), ("T3x", 4)) if not ctx.thorough else (("S2x", 10), ("T3x", 4), ("P2", 12), ("T3", 16))):
+        for sp, parts in ((("S2x", 10), ("T3x", 12)) if not ctx.thorough else (("S2x", 10), ("T3x", 4), ("P2", 12), ("T3", 16))):
             for k in range(parts):
                 us.append((kind, "K0", sp, k, parts))
         if ctx.thorough:
@@ -113,9 +138,10 @@ def run_unit(unit, ctx):
     kind, K, sp, k, parts = unit
     cfg = spaces.config(K)
     acc = core.Acc()
+    table = comparisons(cfg) + (matrix(cfg) if sp != "S2x" or ctx.thorough else [])
     for game in spaces.sharded(games(sp, kind, cfg), k, parts):
         for ranks in spaces.weak_orders(len(game)):
-            msgs, nt, ev = eval_case(kind, cfg, game, ranks)
+            msgs, nt, ev = eval_case(kind, cfg, game, ranks, table=table)
             acc.evals += ev
             acc.nontrivial += nt
             for key, label, m in msgs:
